@@ -78,6 +78,13 @@ def eval_case(case):
                 fail(f"process_model-raises:{type(e).__name__}", f"cse={cse} {type(e).__name__}: {str(e)[:200]} at {env}")
                 break
             n += 1
+            if not ref.ct:  # control may be omitted for a control-free model; the result must be the same
+                try:
+                    out3 = ekf.process_model(env["dt"], state, cov)
+                    if not (np.array_equal(out.state.data, out3.state.data) and np.array_equal(out.covariance.data, out3.covariance.data)):
+                        fail("control-omitted-differs", f"cse={cse} process_model(dt, state, cov) without control differs from the call with an empty Control at {env}")
+                except Exception as e:
+                    fail(f"control-omitted-raises:{type(e).__name__}", f"cse={cse} process_model without control on a control-free model raised {e!r}"[:300])
             if not (np.array_equal(snap[0], state.data) and np.array_equal(snap[1], cov.data)
                     and np.array_equal(snap[2], control.data) and np.array_equal(snap[3], ekf.process_noise)):
                 fail("inputs-modified", f"cse={cse} process_model changed one of its inputs at {env}")
